@@ -52,10 +52,11 @@ class ScriptedCache(Cache):
         self.store = {}
 
     def get(self, evaluatable, options):
-        key = evaluatable.fingerprint(options)
+        # the fault is decided before the fingerprint is computed: an unreliable backend may answer without looking
         f = self.script.next("get")
         if f in ("miss", "fail-get"):
             raise CacheGetFailure(evaluatable, options, self)
+        key = evaluatable.fingerprint(options)
         if f == "forget":
             self.store.pop(key, None)
             raise CacheGetFailure(evaluatable, options, self)
@@ -72,12 +73,12 @@ class ScriptedCache(Cache):
         self.store[key] = value
 
     def exists(self, evaluatable, options):
-        key = evaluatable.fingerprint(options)
         f = self.script.next("exists")
         if f == "miss":
             return False
         if f == "lie-exists":
             return True
+        key = evaluatable.fingerprint(options)
         if f == "forget":
             self.store.pop(key, None)
             return False
@@ -120,6 +121,10 @@ def enum_scripts(ctx):
     fam = _family()
     for d in [x for s in fam for x in s["defs"]]:
         d.pop("effects", None)
+    # a cached dataset as a non-last coalesce member that cannot be evaluated for some dictionaries of the history
+    fam[1] = {"defs": [{"name": "d0", "body": "tag", "params": [{"k": "opt", "key": "K"}], "form": "decorator"},
+                       {"name": "d1", "body": "tag", "params": [{"k": "ref", "name": "d0"}, {"k": "opt", "key": "A"}], "form": "explicit"}],
+              "root": {"k": "coalesce", "members": [{"k": "ref", "name": "d1"}, {"k": "ref", "name": "d0"}, {"k": "val", "v": "fallback"}]}}
     hist = [{"A": 1, "K": 1}, {"A": 2}, {"A": 1, "K": 1}, {"A": 1}]
     k = 0
     for fi, spec in enumerate(fam):
@@ -127,7 +132,10 @@ def enum_scripts(ctx):
             k += 1
             if k % ctx.nshards != ctx.shard:
                 continue
-            yield {"spec": spec, "history": hist, "script": list(script), "family": fi}
+            # for the coalesce graph the first dictionary already makes a non-last member fail, so that the enumerated
+            # faults hit the validation / recovery calls of that member
+            h = [{"A": 2}, {"A": 1, "K": 1}, {"A": 2}, {"K": 3}] if fi == 1 else hist
+            yield {"spec": spec, "history": h, "script": list(script), "family": fi}
     ctx.exhaustive[f"all-5^{n}-fault-scripts-x-3-graphs"] = ctx.exhaustive.get(f"all-5^{n}-fault-scripts-x-3-graphs", 0) + k // ctx.nshards
 
 
